@@ -232,6 +232,10 @@ def e5(ctx, fx, U):
             g, _ = success_edges(fn, a)
             if g and guarded(fn, b, g) and must(key, lambda x: x is a):
                 okk = True
+        if not okk:
+            kp = peel(key)
+            if kp.kind == "param" and (kp.d.get("ty") or "").lstrip("&") in ("str", "std::string::String"):
+                okk = True  # a string by the function's signature: the conversion (and its Err) is the caller's, judged where the JSON value is
         chk(ctx, "C08.E5", fn, line, "digest-is-string", okk, "digest operand is the as_str()-Some of a JSON value; anything else is an Err", "a non-string digest entry is not rejected before the lookup")
     # placeholder: exactly one member
     n_ph = 0
@@ -251,6 +255,17 @@ def e5(ctx, fx, U):
                             ctx.ok("C08.E5", fn, "placeholder-single-member", "A7: the `...` object reaches the lookup only with exactly one member (length set %s)" % fmt_lenset(ls), line=t.get("line"))
                         else:
                             ctx.finding("C08.E5", fn, "placeholder-single-member", "an array placeholder object with extra members is processed (length set %s)" % fmt_lenset(ls), line=t.get("line"))
+    # the lookup made in the array walker itself (no separate lookup function): the key is the `...` value of the placeholder object
+    for (fn, b, n) in U.lookups:
+        gets = [x for x in walk(n.kids[1]) if x.kind == "call" and x.d["term"].get("name") == "get" and len(x.kids) > 1 and const_value(x.kids[1]) == "..." and x.fn is fn]
+        for gnode in gets:
+            n_ph += 1
+            obj = peel(gnode.kids[0])
+            ls = placeholder_len(fn, obj).get(b)
+            if ls is not None and set(ls) <= {1}:
+                ctx.ok("C08.E5", fn, "placeholder-single-member", "A7: the `...` object reaches the lookup only with exactly one member (length set %s)" % fmt_lenset(ls), line=fn.term(b).get("line"))
+            else:
+                ctx.finding("C08.E5", fn, "placeholder-single-member", "an array placeholder object with extra members is processed (length set %s)" % fmt_lenset(ls), line=fn.term(b).get("line"))
     ctx.floor("C08.E5", "placeholder lookups", n_ph, 1)
 
 
